@@ -148,6 +148,21 @@ impl Workspace {
       Err(err_model_evaluator_is_not_deployed(model_name))
     }
   }
+  /// Verification hook (compiled only with `--cfg dmntk_verif`): read-only snapshot of the
+  /// stored definitions as `(namespace, name)` pairs in list order, the sorted key sets of both
+  /// indexes and the sorted key set of the deployed model evaluators.
+  #[cfg(dmntk_verif)]
+  #[allow(clippy::type_complexity)]
+  pub fn verif_snapshot(&self) -> (Vec<(String, String)>, Vec<String>, Vec<String>, Vec<String>) {
+    let definitions = self.definitions.iter().map(|d| (d.namespace().to_string(), d.name().to_string())).collect();
+    let mut by_namespace: Vec<String> = self.definitions_by_namespace.keys().cloned().collect();
+    by_namespace.sort();
+    let mut by_name: Vec<String> = self.definitions_by_name.keys().cloned().collect();
+    by_name.sort();
+    let mut evaluators: Vec<String> = self.model_evaluators_by_name.keys().cloned().collect();
+    evaluators.sort();
+    (definitions, by_namespace, by_name, evaluators)
+  }
   /// Utility function that deletes all definitions in workspace.
   fn clear_definitions(&mut self) {
     self.definitions_by_name.clear();
